@@ -88,6 +88,7 @@ class Run:
         self.pending = {}        # tok -> Future
         self.ntok = 0
         self.emits = []          # awaitables returned by emit (async mode)
+        self.prefailed = set()   # tokens of consumer invocations that failed at once
         self.jobs = {}           # map_async job id -> Future
         self.njob = 0
         run = self
@@ -203,7 +204,7 @@ class Run:
             return self.streamz.zip(*ups, maxsize=nd["maxsize"])
         if k == "sink":
             if nd.get("mode") == "async":
-                return ups[0].sink(self._consumer())
+                return ups[0].sink(self._consumer(prefail=nd.get("prefail")))
             return ups[0].sink(mk(nd["f"]))
         raise KeyError(k)
 
@@ -220,9 +221,17 @@ class Run:
             run.log.append(["jobstart", me, jid, canon(x), run.loop.time()])
             await fut
             return f(x)
+        cf = nd.get("callfail")
+        if cf:
+            def call(x):
+                # a mapped callable that validates its argument BEFORE returning the awaitable
+                if type(x) is int and cf[0] and x % cf[0] == cf[1]:
+                    raise ValueError("mapped callable rejected its argument")
+                return job(x)
+            return call
         return job
 
-    def _consumer(self):
+    def _consumer(self, prefail=None):
         run = self
 
         def consumer(x):
@@ -231,6 +240,27 @@ class Run:
             fut = run.loop.create_future()
             run.pending[tok] = fut
             run.log.append(["start", None, tok, canon(x), run.loop.time() if run.loop else 0])
+            if prefail and type(x) is int and prefail[0] and x % prefail[0] == prefail[1]:
+                # the consumer fails before its first suspension point: the awaitable it returns has already failed
+                run.prefailed.add(tok)
+                if run.flavour == "future":
+                    fut.set_exception(ValueError("consumer failed at once"))
+                    return fut
+                if run.flavour == "coro":
+                    async def boom():
+                        fut.set_exception(ValueError("consumer failed at once"))
+                        fut.exception()
+                        raise ValueError("consumer failed at once")
+                    return boom()
+                from tornado import gen as _gen
+
+                @_gen.coroutine
+                def tboom():
+                    fut.set_exception(ValueError("consumer failed at once"))
+                    fut.exception()
+                    raise ValueError("consumer failed at once")
+                    yield
+                return tboom()
             if run.flavour == "future":
                 return fut
             if run.flavour == "coro":
@@ -333,7 +363,11 @@ class Run:
             elif kind == "sinkdone":
                 self.pending.pop(op["tok"]).set_result(None)
             elif kind == "sinkfail":
-                self.pending.pop(op["tok"]).set_exception(ValueError("consumer failed"))
+                fut = self.pending.pop(op["tok"])
+                if not fut.done():
+                    fut.set_exception(ValueError("consumer failed"))
+                else:
+                    fut.exception()     # already failed at once (pre-failed consumer): just acknowledge it
             elif kind == "connect":
                 self.nodes[op["up"]].connect(self.nodes[op["down"]])
             elif kind == "disconnect":
@@ -376,6 +410,7 @@ class Run:
             o.update(self.links())
         if self.case["mode"] == "async":
             o["emits"] = self.emit_status()
+            o["prefailed"] = sorted(self.prefailed)
         return o
 
     def cleanup(self):
